@@ -55,10 +55,13 @@ def conditions(user, default):
     u0, d0 = copy.deepcopy(user), copy.deepcopy(default)
     out = update_config(user, default)
     lo, lu, ld = leaves(out), leaves(user), leaves(default)
+    # a default leaf counts as unspecified unless the user gave a value at that path, at a prefix of it (a plain value where the default
+    # holds a section) or below it (a section where the default holds a plain value): the user's entry wins as a whole
+    shadowed = lambda p: any(q == p[:len(q)] or p == q[:len(p)] for q in lu)
     ok = out == oracle(user, default)
     ok = ok and all(p in lo and lo[p] == v for p, v in lu.items())                      # every user leaf survives
-    ok = ok and all(p in lo and lo[p] == v for p, v in ld.items() if p not in lu)       # every default-only leaf is taken
-    ok = ok and set(lo) == set(lu) | set(ld)                                            # no other keys
+    ok = ok and all(p in lo and lo[p] == v for p, v in ld.items() if not shadowed(p))   # every unspecified default leaf is taken
+    ok = ok and set(lo) == set(lu) | set(p for p in ld if not shadowed(p))              # no other keys
     ok = ok and user == u0 and default == d0                                            # inputs unmodified
     ok = ok and update_config(out, default) == out                                      # idempotent
     ok = ok and update_config(rev(user), rev(default)) == out                           # insertion order irrelevant
@@ -260,6 +263,9 @@ def merge_part(chk, tier, rng):
         u, d = gen_tree(rng, 1, "a"), gen_tree(rng, 1, "b")
         if compatible(u, d) and (set(u) & set(d) or rng.random() < 0.2):
             pairs.append((u, d))
+    # a user section where the default holds a plain value, and the reverse: the user's entry wins as a whole
+    pairs = [({"settings": {"NT": None, "qha": None}, "elast": None}, {"settings": None, "elast": None}),
+             ({"settings": None}, {"settings": {"NT": None}, "qha": None})] + pairs
     chunks = [pairs] if tier == "quick" else [pairs[i::8] for i in range(8)]
     results = {}
     t0 = time.time()
